@@ -90,6 +90,12 @@ CHECKS["C11"] = {
     "technique": "symbolic execution (CrossHair/z3) of the overlap kernel on symbolic path lists and of the evaluation's rejection path with solver-chosen kept paths; enumerated cyclic / nested-eval programs",
 }
 
+CHECKS["C13"] = {
+    "text": "Whole evaluation (analysis traced) on a template with 1-3 parameter functions (with / without defaults, falsy and None defaults) under the ideal-hash model whose tokens are single bits, so that cancellations under the XOR combiner are visible: for symbolic argument values every spelling of one binding (positional, keyword, reordered keywords, default omitted / explicit) yields one signature for the kept path; two direct calls with symbolic bindings share a signature only if the bindings are equal; calls discovered as literals in source (9 literals x spellings) share the signature of the direct call with a symbolic value exactly when the value equals the literal. Three recorded known findings (falsy default omitted vs explicit, literal None vs run-time None, negative literal not constant).",
+    "design_ref": "DESIGN.md 5-C13",
+    "technique": "symbolic execution (CrossHair/z3) of the whole analysis on a spelling template with symbolic argument values under a single-bit-token ideal-hash model",
+}
+
 NOT_APPLICABLE = {}
 
 
